@@ -574,3 +574,89 @@ def vacant_only_insertions(body, defs=None, dom=None):
             if any(lb in dom[bi] and decided_by(body, defs, dom, lb, bi) for lb in lookups):
                 out.append(bi)
     return out
+
+
+_OK_IMPLIES = {}
+
+
+def ok_implies(F, path, depth=0):
+    """Names (last path segments) of the calls whose SUCCESS is implied when the crate function `path` returns Ok / Some: every
+    success exit lies behind the good edge of a gate on that call's result, or is that call's result itself (possibly passed through
+    map_err and the like).  Used to see through checking helpers (`fn check_signature(..) -> Result<..> { a()?; b() }`)."""
+    key = (id(F), path)
+    if key in _OK_IMPLIES:
+        return _OK_IMPLIES[key]
+    _OK_IMPLIES[key] = set()
+    b = F.body(path) if path and F.has(path) else None
+    if b is None or not b.mir or depth > 3:
+        return set()
+    defs = Defs(b)
+    gs = gates(b, defs)
+
+    def chain_names(chain):
+        out = set()
+        for c in chain:
+            out.add(c[1].rsplit("::", 1)[-1])
+            out.add(c[2].rsplit("::", 1)[-1])
+            out |= ok_implies(F, c[1], depth + 1)
+        return out
+
+    exits = [(bi, set()) for bi in ok_exits(b, "Ok") + ok_exits(b, "Some")]
+    for d in defs.defs.get(0, []):
+        if d[2] == "call":
+            if callee_def(d[3]).endswith("FromResidual::from_residual"):
+                continue   # the failure exit of `?`
+            ch = [(d[0], callee(d[3]), callee_def(d[3]))]
+            for a in d[3]["args"]:
+                if is_place_op(a):
+                    ch += value_chain(b, defs, a[1][0])
+                    break
+            exits.append((d[0], chain_names(ch)))
+        elif d[2] == "assign" and d[3]["rv"]["k"] in ("use", "cast") and is_place_op(d[3]["rv"]["o"]):
+            ch = value_chain(b, defs, d[3]["rv"]["o"][1][0])
+            if ch:
+                exits.append((d[0], chain_names(ch)))
+    result = None
+    for bi, extra in exits:
+        sset = set(extra)
+        for g in gs:
+            if g["family"] is not None and gated_by(b, g, bi):
+                sset |= chain_names(g["chain"])
+                sset.add(origin_key(b, defs, g["place"]))
+        result = sset if result is None else (result & sset)
+    _OK_IMPLIES[key] = result or set()
+    return _OK_IMPLIES[key]
+
+
+_ALWAYS_ERR = {}
+
+
+def always_err(F, path, depth=0):
+    """The crate function `path` never returns Ok / Some: every write of its return place is an `Err(..)` / `None`, the failure exit
+    of `?`, or the result of another such function."""
+    key = (id(F), path)
+    if key in _ALWAYS_ERR:
+        return _ALWAYS_ERR[key]
+    _ALWAYS_ERR[key] = False
+    b = F.body(path) if path and F.has(path) else None
+    if b is None or not b.mir or depth > 2:
+        return False
+    defs = Defs(b)
+    ds = defs.defs.get(0, [])
+    ok = bool(ds)
+    for d in ds:
+        if d[2] == "call":
+            if callee_def(d[3]).endswith("FromResidual::from_residual"):
+                continue
+            if always_err(F, callee(d[3]), depth + 1):
+                continue
+            ok = False
+        elif d[2] == "assign":
+            rv = d[3]["rv"]
+            if rv["k"] == "agg" and rv.get("variant") in ("Err", "None"):
+                continue
+            ok = False
+        else:
+            ok = False
+    _ALWAYS_ERR[key] = ok
+    return ok
